@@ -111,6 +111,11 @@ func backpropAcrossNode(rootNode *RootAssertionNode, node ast.Node) error {
 	case *ast.BasicLit, *ast.Ident, *ast.EmptyStmt, *ast.DeferStmt:
 		// TODO: figure out what source code generates these cases - it's not obvious
 		// TODO: handle defers
+	case ast.Expr:
+		// Any other expression can end up as a node of its own as well, e.g., a function literal
+		// or an instantiated generic function used as a switch tag. AddComputation recurs through
+		// the expressions it knows about and ignores the rest.
+		rootNode.AddComputation(n)
 	default:
 		return fmt.Errorf("unrecognized AST node %T in CFG - add a case for it", n)
 	}
